@@ -1,6 +1,6 @@
 (* Error-budget arithmetic of round_tt / round_tucker / round, over the real numbers.
    Axioms: those of Coq's Reals library (named by Print Assumptions in Properties/C04.v). *)
-From Coq Require Import Reals Lra.
+From Coq Require Import Reals Lra List.
 Local Open Scope R_scope.
 
 (* round_tt: delta = eps / max(1, sqrt(N-1)) * nrm, one truncation per bond (n = N-1 of them), each discarding
@@ -59,4 +59,15 @@ Proof.
   assert (Hk : tucker_eps eps reached * (1 + reached) = eps - reached).
   { unfold tucker_eps. field. lra. }
   rewrite <- Rmult_assoc, Hk in Hbc2. lra.
+Qed.
+
+(* n truncation steps, each discarding at most delta^2 of squared energy, pairwise orthogonal (so that the squares add):
+   the total stays within (eps |t|)^2 *)
+Theorem steps_within_budget (es : list R) (eps nrm : R) :
+  Forall (fun e => e <= (tt_delta eps nrm (length es))²) es -> fold_right Rplus 0 es <= (eps * nrm)².
+Proof.
+  intros H. eapply Rle_trans; [|apply (tt_budget eps nrm (length es))].
+  set (d := (tt_delta eps nrm (length es))²) in *. clearbody d.
+  induction es as [|e es IH]; [cbn; lra|].
+  inversion H as [|x l H1 H2]; subst x l. cbn [fold_right length]. rewrite S_INR. specialize (IH H2). lra.
 Qed.
